@@ -100,6 +100,10 @@ def decode(
     except (TypeError, ValueError, RecursionError):
         raise InvalidPayloadError()
 
+    # the JWT Claims Set MUST be a JSON object (RFC 7519, section 7.2)
+    if not isinstance(claims, dict):
+        raise InvalidPayloadError()
+
     return Token(header, claims)
 
 
